@@ -2,12 +2,7 @@
  * (DnsMessage::validateRdataSecurity, decodeNameFromRdata, parseHeader, parseQuestion, parseResourceRecord x2) */
 #include "iora_dns_contracts.h"
 
-/* struct DnsHeader / DnsQuestion / DnsResourceRecord (dns_types.hpp). std::string members the parsers only write are
- * accumulators (iora_ostr); rdata is a view (iora_bv): `rdata.assign(first, last)` makes it alias the copied range. */
-typedef struct { uint16_t id; bool qr; DnsOpcode opcode; bool aa, tc, rd, ra; uint8_t z; DnsResponseCode rcode;
-                 uint16_t qdcount, ancount, nscount, arcount; } DnsHeader;
-typedef struct { iora_ostr qname; DnsType qtype; DnsClass qclass; } DnsQuestion;
-typedef struct { iora_ostr name; DnsType type; DnsClass cls; uint32_t ttl; uint16_t rdlength; iora_bv rdata; } DnsResourceRecord;
+#include "iora_dns_types.h"        /* C structs of dns_types.hpp shared by the DNS units */
 
 /* proved in unit dns_name (contract text: shims/iora_dns_contracts.h); called here only through that contract */
 size_t decodeName(const uint8_t *data, size_t offset, size_t size, iora_ostr *name);
